@@ -120,6 +120,7 @@ def run(ck, F, E):
     # ---- (5) edit path
     ev, store = common.edit_path_rules(ck, F, E, P)
     line_number_parser(ck, F)
+    line_number_prefix(ck, F)
     if ev is not None and store is not None:
         store_iff_numbered(ck, F, ev, store)
     unconditional_store(ck, F)
@@ -194,7 +195,10 @@ def line_number_parser(ck, F):
     for (bb, sp) in nones:
         for (sw, subj, names) in controlling_switches(b, bb):
             txt = show(subj)
+            cn = [x[1].split("::")[-1] for x in expr_calls(subj)]
             ok = ("is_ascii_digit" in txt or "is_ascii_whitespace" in txt or "parse(" in txt or "parse" in txt and "Result" in txt or
+                  ("count" in cn and "take_while" in cn) or           # `digit_count == 0`: no leading digit run
+                  (cn[:1] == ["find"]) or
                   (names and set(names.values()) <= {"None", "Some", "Ok", "Err", "Continue", "Break"}))
             if not ok:
                 bad.append(txt[:100])
@@ -205,6 +209,55 @@ def line_number_parser(ck, F):
     ok = any(c.callee.endswith("<impl str>::parse") and c.gargs and c.gargs[0] == "u64" for c in b.calls())
     ck.require(ok, "C04:PARSE:u64", "line-number prefix", "the digit run is converted with str::parse::<u64>",
                "parse_line_number no longer converts with parse::<u64>", b.span, nontrivial=False)
+
+
+def line_number_prefix(ck, F):
+    """Only blanks may precede the digits of a line number: `PRINT 5` is not an edit of line 5.
+
+    one-pass form: every iteration of the scan loop that goes on to the next character has either seen an ASCII digit or an
+    ASCII blank; two-phase form: the digits are counted from the offset found by `find(|c| !c.is_ascii_whitespace())`."""
+    from lib import iteration_paths, path_records, with_closures, ascii_digit_run
+    b = get_fn(ck, F, "line_number_parser::parse_line_number")
+    if b is None:
+        return
+    bodies = with_closures(F, b)
+    checked = 0
+    bad = []
+    for body in bodies:
+        its = iteration_paths(body)
+        for r in path_records(body, paths=its):
+            tests = [(d[0], d[2]) for d in r["decisions"] if "is_ascii_digit" in d[0] or "is_ascii_whitespace" in d[0]]
+            if not any("is_ascii" in c.callee for c in body.calls()):
+                continue                      # a loop that does not classify characters (none today)
+            checked += 1
+            if not any(v is True for (_, v) in tests):
+                bad.append("an iteration that %s goes on to the next character" %
+                           (", ".join("%s is %s" % (t.split("(")[0].split("::")[-1], v) for t, v in tests) or "tests nothing"))
+    # two-phase form
+    for c in b.calls():
+        if not c.callee.endswith("<impl str>::find") and not c.callee.endswith("<impl str>::trim_start_matches") and \
+                not c.callee.endswith("<impl str>::trim_start"):
+            continue
+        if c.callee.endswith("trim_start"):
+            bad.append("str::trim_start strips Unicode blanks, not only ASCII ones")
+            continue
+        pred = strip_expr(b.expr(c.args[1]))
+        cb = F.bodies.get(pred[1]) if pred[0] == "agg" else None
+        if cb is None:
+            continue
+        checked += 1
+        ws = [x for x in cb.calls() if x.callee.endswith("is_ascii_whitespace")]
+        ret = strip_expr(cb._local_expr(0, 12))
+        neg = ret is not None and ret[0] == "unop" and ret[1] == "Not"
+        want_neg = c.callee.endswith("find")
+        if len(ws) != 1 or len(cb.calls()) != 1 or neg != want_neg:
+            bad.append("the predicate given to %s is not `%sc.is_ascii_whitespace()`" % (c.callee.split("::")[-1], "!" if want_neg else ""))
+    ck.floor("C04.prefix scans of parse_line_number", checked, 1)
+    ck.require(not bad, "C04:PARSE:only-blanks-before-the-number", "line-number prefix",
+               "%d scan step(s): a character is skipped only when it is an ASCII blank (or is a digit of the number)" % checked,
+               "parse_line_number skips characters that are neither blanks nor digits (%s): a direct-mode statement that merely "
+               "contains a number (`PRINT 5`) is taken for an edit of that line and deletes or replaces it" % "; ".join(sorted(set(bad))),
+               b.span)
 
 
 def walk_places(e, acc=None):
